@@ -349,16 +349,20 @@ def filter_names(e: Engine):
 def backend_shape(e: Engine, cq: str):
     """'in-place' | 'accumulate' | None, from the source of the backend."""
     fnames = filter_names(e)
-    ctx = e.method_ctx(cq, 'get')
-    calls_filter = any(
-        isinstance(n, ast.Call) and isinstance(n.func, ast.Attribute) and
-        n.func.attr in fnames
-        for n in walk_own(ctx.func.node))
-    sctx = e.method_ctx(cq, 'set_recipients_delivered')
-    set_filters = any(
-        isinstance(n, ast.Call) and isinstance(n.func, ast.Attribute) and
-        n.func.attr in fnames
-        for n in walk_own(sctx.func.node))
+
+    def filters(root):
+        # the method together with the private helpers only it uses
+        mc = common.merged_class(e, cq)
+        for mname in sorted(common.owner_closure(e, cq, [root])):
+            m = mc.methods.get(mname)
+            if m is not None and mname not in fnames and any(
+                    isinstance(n, ast.Call) and
+                    isinstance(n.func, ast.Attribute) and
+                    n.func.attr in fnames for n in walk_own(m.node)):
+                return True
+        return False
+    calls_filter = filters('get')
+    set_filters = filters('set_recipients_delivered')
     if set_filters and not calls_filter:
         return 'in-place'
     if calls_filter:
@@ -435,16 +439,19 @@ def r35(e: Engine, rep: Report):
                     'backend ever removes settled recipients: they are '
                     'attempted again in every round', loc=ctx.func.loc())
             continue
-        g = e.build(ctx, raises=lambda b, n, r: set())
+        fnames = filter_names(e)
+        g = e.build(ctx, raises=lambda b, n, r: set(),
+                    inline=e.inline_same_self(deny=sorted(fnames)),
+                    max_depth=3)
         where = ctx.func.qname
         rep.functions.add(where)
-        fnames = filter_names(e)
         filt = [n for n in g.calls() if e.call_name(n) in fnames]
         before = dataflow.must_events_before(
             g, lambda n: ['filter'] if n in filt else [])
         fx = e.facts(g)
         rets = [n for n in g.of_kind('stmt')
-                if isinstance(n.ast, ast.Return) and n.ast.value is not None]
+                if isinstance(n.ast, ast.Return) and n.ast.value is not None
+                and n.frame is g.entry.frame]
         for r in rets:
             rep.evaluations += 1
             if before.get(r.id) is None:
